@@ -49,6 +49,24 @@ def check_bin(ctx, binImgs, rng):
         ctx.check(np.array_equal(got.astype(np.float64), want.astype(np.float64)), "binImgs:block_sums:" + cls,
                   "binned values differ from the n x n block sums", wit)
         ctx.check(float(got.astype(np.float64).sum()) == float(data.astype(np.float64).sum()), "binImgs:flux", "total flux not preserved", wit)
+    # high dynamic range (a hot / saturated pixel next to a faint background): every block sum depends on its own block only
+    if n >= 2 and a * b >= 2:
+        import math
+        hdr = np.ones(shape, dtype=np.float64) * float(rng.uniform(0.5, 2.0))
+        hot = tuple(int(rng.integers(0, s_)) for s_ in shape)
+        hdr[hot] = float(2.0 ** int(rng.integers(40, 70)))
+        gh = np.asarray(binImgs(hdr, n), dtype=np.float64)
+        blocks = hdr.reshape(lead + (a, n, b, n))
+        blocks = np.moveaxis(blocks, -3, -2).reshape(lead + (a, b, n * n))
+        wh = np.array([math.fsum(v) for v in blocks.reshape(-1, n * n)]).reshape(lead + (a, b))
+        ah = np.abs(blocks).sum(-1)
+        ctx.count("hdr_block_sums", wh.size)
+        wit_h = dict(wit, hot_pixel=hot, hot_value=float(hdr[hot]))
+        if ctx.check(gh.shape == wh.shape, "binImgs:shape", "shape %s != %s" % (gh.shape, wh.shape), wit_h):
+            err = np.abs(gh - wh) / (4 * n * n * 2.3e-16 * ah)
+            ctx.metric("hdr_block_err/(4 n^2 eps sum|block|)", float(err.max()))
+            ctx.check(bool(err.max() <= 1.0), "binImgs:block_sums:high_dynamic_range",
+                      "a block sum is off by %.3g x (4 n^2 eps sum|block|): blocks away from the hot pixel are not their own sums" % float(err.max()), wit_h)
     got2 = binImgs(data, float(n) + (0.2 if rng.random() < 0.5 else 0.0))
     ctx.check(np.array_equal(got2, got), "binImgs:float_factor", "n given as float (rounded) gives a different result", wit)
 
